@@ -26,6 +26,8 @@ Driver for C03.  Lists: `,` inside a posting list / chunk, `;` between chunks / 
   tokens.gen <old|new> <rbs> <fields: hex,hex|...>   -> ok <field:isStart:total:startTID:hex,hex|...> | panic
   tokens.table <rbs> <base> <fields>               -> ok entries=<field:startIndex:startTID:blockIndex:valCount:min:max;...> vals=<hex,...> | panic
   tokens.getseq <rbs> <base> <fields> <tids>       -> ok <x hex or ? per call, in call order>   (one index instance)
+  tokens.tablecodec <rbs> <fields: xNAME=startTID:valCount:startIndex:blockIndex:xMIN|-:xMAX;...|...>
+        -> ok <hex of every table block|...> loaded=<xNAME=xMINVAL[startIndex:startTID:blockIndex:valCount:xMAX;...]|...>
   tokens.tablebytes <rbs> <base> <name pad> <fields>  -> ok <hex of every token TABLE block|...> loaded=<1 iff loadTable = kept table>
   tokens.select <hint> <minVal> <maxVals>          -> ok <l> <r>
   frac.index <mids> <rids> <allDocs> <posting> <minLID> <maxLID>  -> ok ids=<mid:rid,...> index=<...> asc=<lids> desc=<lids>
@@ -233,6 +235,23 @@ def step (line : String) : String :=
         s!"ok {fmtList (fun (v : Option Tok) => match v with | some v => fmtX v | none => "?") (getValSeq base w tids)}"
       | .error _ => "panic"
     | _, _, _, _ => "bad-op"
+  | ["tokens.tablecodec", rbs, fs] =>
+    let parseE := fun (e : String) => match e.splitOn ":" with
+      | [a, b, c, d, mn, mx] => do
+        let mnv ← if mn = "-" then some none else (xhex? mn).map some
+        pure ({ field := 0, startTID := (← a.toNat?), valCount := (← b.toNat?), startIndex := (← c.toNat?),
+                blockIndex := (← d.toNat?), minVal := mnv, maxVal := (← xhex? mx) } : TEntry)
+      | _ => none
+    let parseF := fun (f : String) => match f.splitOn "=" with
+      | [n, es] => do pure ({ name := (← xhex? n), entries := (← (splitList es ";").mapM parseE) } : FieldEntries)
+      | _ => none
+    match rbs.toNat?, (splitList fs "|").mapM parseF with
+    | some rbs, some fes =>
+      let blocks := writeTable rbs fes []
+      let fmtL := fun (f : LField) =>
+        s!"{fmtX f.name}={fmtX f.minVal}[{fmtList (fun (e : LEntry) => s!"{e.startIndex}:{e.startTID}:{e.blockIndex}:{e.valCount}:{fmtX e.maxVal}") f.entries ";"}]"
+      s!"ok {fmtList fmtHex blocks "|"} loaded={fmtList fmtL (loadTable blocks) "|"}"
+    | _, _ => "bad-op"
   | ["tokens.tablebytes", rbs, base, pad, fs] =>
     match rbs.toNat?, base.toNat?, pad.toNat?, parseTokFields fs with
     | some rbs, some base, some pad, some fs =>
